@@ -1334,6 +1334,7 @@ def evaluate(ctx, ev, spec, axes, meta, sides, res):
                     m = np.array([float(fr(v)) for v in flat], dtype=float).reshape(fshape)
                     for idx in pad_cells:
                         if far(m[idx] - rf[idx], btol):
+                            ctx.hist("model_tie_disagreement", "pad_bc")
                             ctx.disagree("pad_bc", dict(pad_case, ghost_cell=list(idx), component=c), float(m[idx]),
                                          float(rf[idx]), "padFull differs from _data_full after set_ghost_cells(bc, "
                                          "set_corners=True)")
@@ -1556,6 +1557,7 @@ def evaluate(ctx, ev, spec, axes, meta, sides, res):
                         ok = (not isinstance(real, str)) and len(real) == len(val) and \
                             all(abs(float(fr(m)) - r) <= TOL * scale_of(data, spec["fill"] or 0) for m, r in zip(val, real))
                     if not ok:
+                        ctx.hist("model_tie_disagreement", leg + "_model")
                         ctx.disagree(leg + "_model", case, val, real, "interpolate_to_grid differs from interpToGrid")
                 ctx.hist("to_grid", "interpToGrid/" + name)
                 ev.ask("c16.togrid", {"eps": q(EPS), "ghost": ghost, "fill": None if name == "nofill" else q(spec["fill"]),
